@@ -40,15 +40,20 @@ def junk_text(draw):
 # ---------------------------------------------------------------- (a) command lines
 @st.composite
 def btcdeb_cmd(draw):
-    kind = draw(st.sampled_from(['script', 'script', 'script-z', 'script-junk', 'spend', 'spend-mutated', 'spend-witshape', 'spend-witshape', 'spend-shapes', 'spend-shapes', 'p2sh-plain', 'tx-only', 'options', 'select', 'stdin-edge', 'inline', 'spend-hashtype']))
+    kind = draw(st.sampled_from(['script', 'script', 'script-z', 'script-junk', 'spend', 'spend-mutated', 'spend-witshape', 'spend-witshape', 'spend-shapes', 'spend-shapes', 'p2sh-plain', 'tx-only', 'options', 'select', 'stdin-edge', 'inline', 'spend-hashtype', 'spend-hashtype', 'tty-logging', 'tty-logging']))
     argv, stdin = [], b''
     comp = kind
+    stdin_tty = False
     if kind == 'spend-hashtype':
         # an ECDSA signature whose hash type byte is one of the unusual ones (0x00, 0x04, 0x80, 0x84, 0xff ...), with STRICTENC off so that it reaches the
         # signature hash and its logging
         rnd = draw(st.randoms(use_true_random=False))
-        c = S.build(rnd, draw(st.sampled_from(['p2pkh', 'p2pk', 'p2wpkh', 'p2sh-p2wpkh', 'multisig'])), ninputs=1)
-        ht = draw(st.sampled_from([0x00, 0x04, 0x80, 0x84, 0xff, 0x1f, 0x20, 0x44]))
+        c = S.build(rnd, draw(st.sampled_from(['p2pkh', 'p2pk', 'p2wpkh', 'p2sh-p2wpkh', 'multisig'])), ninputs=draw(st.sampled_from([1, 1, 3])))
+        ht = draw(st.sampled_from([0x00, 0x04, 0x80, 0x84, 0xff, 0x1f, 0x20, 0x44, 0x03, 0x03, 0x83, 0x02, 0x82]))
+        if ht in (0x03, 0x83) and draw(st.booleans()):
+            c['tx'].vout = c['tx'].vout[:1]        # SIGHASH_SINGLE with no output at the index of the debugged input (the historic 'one' digest)
+        # the signing / sighash log is only live when stdin is a terminal: half of these runs keep it on one (stdout stays a pipe: non-interactive)
+        stdin_tty = draw(st.booleans())
         vin = c['tx'].vin[c['idx']]
         if vin['wit']:
             vin['wit'][0] = vin['wit'][0][:-1] + bytes([ht])
@@ -61,6 +66,20 @@ def btcdeb_cmd(draw):
         if draw(st.booleans()):
             argv += ['--debug=' + draw(st.sampled_from(['sign', 'signing', 'sighash', 'sighash,signing', 'all']))]
         stdin = b'\n'
+    elif kind == 'tty-logging':
+        # stdin on a terminal, stdout a pipe: a non-interactive run in which every log category can be live (--debug=..., DEBUG_* variables): a signature check
+        # with a well-formed signature and key over a script code of up to ~10 kB, with a transaction given - the digest code logs what it hashes
+        rnd = draw(st.randoms(use_true_random=False))
+        c = S.build(rnd, 'p2pkh', ninputs=draw(st.sampled_from([1, 2])))
+        ops = [e for e in R.decode(c['tx'].vin[c['idx']]['script']) if e and e[1]]
+        sig, pub = ops[0][1], ops[1][1]
+        filler = draw(st.sampled_from([0, 1, 2, 3, 19]))
+        body = (G.push(bytes([9]) * 520, 1) + b'\x75') * filler + draw(st.sampled_from([b'\xac\x91', b'\xac\x91', b'\xad\x51', b'\x51\x7c\x51\xae\x91']))
+        argv += ['--tx=' + c['tx'].ser().hex(), '--modify-flags=-NULLFAIL', draw(st.sampled_from(['--debug=sighash', '--debug=sighash,signing', '-Dall', '--debug=signing,segwit,taproot', '--debug=sighash'])),
+                 '0x' + body.hex(), '0x' + sig.hex(), '0x' + pub.hex()]
+        if body.endswith(b'\xae\x91'):
+            argv[-2:] = ['0x', '0x' + sig.hex(), '0x' + pub.hex()]
+        stdin_tty = True
     elif kind == 'inline':
         # inline function expressions as the script (stdin or argv), inside a bracketed script, as stack arguments and in the --pretend-valid list
         e = draw(inline_expr())
@@ -181,7 +200,7 @@ def btcdeb_cmd(draw):
     else:
         stdin = draw(st.sampled_from([b'1' + b'a' * 10000000 + b'\n', b'9' * 3000000 + b'\n', b'-' + b'7' * 5000000 + b'\n', b'a(' * 100000 + b'1' + b')' * 100000 + b'\n',
                                       b'', b'\n', b'\x00', b'0x51', b'[' * 600 + b'\n', b'0x' + b'51' * 6000 + b'\n', b'[OP_1 ' * 300 + b'\n', b'\xff\xfe\n', b'0x51\n0x52\n']))
-    return dict(tool='btcdeb', argv=argv, stdin=stdin, component=comp)
+    return dict(tool='btcdeb', argv=argv, stdin=stdin, component=comp, stdin_tty=stdin_tty)
 
 
 INLINE_FUNS = ['echo', 'hex', 'int', 'reverse', 'sha256', 'ripemd160', 'hash256', 'hash160', 'base58chkenc', 'base58chkdec', 'bech32enc', 'bech32dec', 'verify_sig', 'combine_pubkeys', 'tweak_pubkey',
@@ -311,7 +330,7 @@ def tap_cmd(draw):
 
 def cmd_json(c):
     return dict(tool=c['tool'], argv=[a if len(a) < 4000 else dict(prefix=a[:200], repeat_len=len(a), tail=a[-40:]) for a in c['argv']], full_argv=c['argv'] if sum(len(a) for a in c['argv']) < 20000 else None,
-                stdin=c['stdin'].hex() if len(c['stdin']) < 4000 else dict(prefix=c['stdin'][:100].hex(), length=len(c['stdin'])), component=c['component'])
+                stdin=c['stdin'].hex() if len(c['stdin']) < 4000 else dict(prefix=c['stdin'][:100].hex(), length=len(c['stdin'])), component=c['component'], stdin_tty=bool(c.get('stdin_tty')))
 
 
 def check_cmd(c, ctx, variant='asan'):
@@ -320,7 +339,7 @@ def check_cmd(c, ctx, variant='asan'):
     if sum(len(a) for a in c['argv']) > 120000:
         return
     ctx.case(repr((c['tool'], c['argv'], c['stdin'])), True, cmd_json(c), c['component'])
-    r = cli.run(cli.binpath(c['tool'], variant), c['argv'], stdin=c['stdin'], timeout=30)
+    r = cli.run(cli.binpath(c['tool'], variant), c['argv'], stdin=c['stdin'], stdin_tty=bool(c.get('stdin_tty')), timeout=30)
     if r.timed_out:
         ctx.inconclusive += 1
         return
@@ -332,6 +351,9 @@ def check_cmd(c, ctx, variant='asan'):
             return
         raise Violation(c, '%s terminated abnormally (%s) [component %s]: %s' % (c['tool'], ab, c['component'], (r.err.decode(errors='replace')[-400:]).replace('\n', ' | ')), observed=repr(r)[-600:])
     ctx.count('exit:%s:%s' % (c['tool'], r.rc))
+    # "terminate by themselves with a result or a diagnostic": a failing exit status with nothing at all on stdout and stderr is neither
+    if r.rc != 0 and not r.out.strip() and not r.err.strip():
+        raise Violation(c, '%s ended with exit status %d and printed nothing at all - neither a result nor a diagnostic [component %s]' % (c['tool'], r.rc, c['component']), observed=repr(r)[-300:])
     # what btcdeb lists for a spend is derived from the scripts of the two transactions: more output lines than those scripts have bytes means it is
     # listing memory that is not its input (a script listing walking past the end of a script) - invisible to the sanitizers when the bytes
     # happen to lie in owned memory
@@ -705,7 +727,7 @@ def replay(rec):
         elif 'cmds' in c:
             check_repl(dict(sess=dict(kw=dict(script=bytes.fromhex(c['script']), stack=[bytes.fromhex(x) for x in c['stack']], flags=c.get('flags'))), cmds=c['cmds']), ctx)
         elif c.get('full_argv') is not None:
-            check_cmd(dict(tool=c['tool'], argv=c['full_argv'], stdin=bytes.fromhex(c['stdin']) if isinstance(c['stdin'], str) else b'', component=c['component']), ctx)
+            check_cmd(dict(tool=c['tool'], argv=c['full_argv'], stdin=bytes.fromhex(c['stdin']) if isinstance(c['stdin'], str) else b'', component=c['component'], stdin_tty=c.get('stdin_tty')), ctx)
         else:
             return True, 'argv too large to store; rerun the quick tier'
     except Violation as v:
